@@ -1076,7 +1076,9 @@ def _decorate_new_with_invariants(new_func: CallableT) -> CallableT:
     return wrapper  # type: ignore
 
 
-def _decorate_with_invariants(func: CallableT, is_init: bool) -> CallableT:
+def _decorate_with_invariants(
+    func: CallableT, is_init: bool, is_setattr: Optional[bool] = None
+) -> CallableT:
     """
     Decorate the method ``func`` with invariant checks.
 
@@ -1084,10 +1086,16 @@ def _decorate_with_invariants(func: CallableT, is_init: bool) -> CallableT:
 
     :param func: function to be wrapped
     :param is_init: True if the ``func`` is __init__
+    :param is_setattr:
+        True if the ``func`` is bound as ``__setattr__`` in the class;
+        if not given, the name of the function decides
     :return: function wrapped with invariant checks
     """
     if _already_decorated_with_invariants(func=func):
         return func
+
+    if is_setattr is None:
+        is_setattr = func.__name__ == "__setattr__"
 
     sign = inspect.signature(func)
     param_names = list(sign.parameters.keys())
@@ -1161,7 +1169,7 @@ def _decorate_with_invariants(func: CallableT, is_init: bool) -> CallableT:
 
                 invariants = (
                     instance.__class__.__invariants_on_setattr__
-                    if func.__name__ == "__setattr__"
+                    if is_setattr
                     else instance.__class__.__invariants_on_call__
                 )
 
@@ -1208,7 +1216,7 @@ def _decorate_with_invariants(func: CallableT, is_init: bool) -> CallableT:
 
                 invariants = (
                     instance.__class__.__invariants_on_setattr__
-                    if func.__name__ == "__setattr__"
+                    if is_setattr
                     else instance.__class__.__invariants_on_call__
                 )
 
@@ -1372,10 +1380,15 @@ def add_invariant_checks(cls: ClassT) -> None:
             setattr(cls, "__new__", _decorate_new_with_invariants(new_func))
         else:
             wrapper = _decorate_with_invariants(func=init_func, is_init=True)
-            setattr(cls, init_func.__name__, wrapper)
+            # The constructor may have been defined under another name (``__init__ = _setup``).
+            setattr(cls, "__init__", wrapper)
 
     for name, func in names_funcs:
-        wrapper = _decorate_with_invariants(func=func, is_init=False)
+        # The name under which the function is bound decides (not the name it was defined with,
+        # *e.g.*, ``__setattr__ = _guarded_set``).
+        wrapper = _decorate_with_invariants(
+            func=func, is_init=False, is_setattr=(name == "__setattr__")
+        )
 
         # A function which is inherited and already decorated with the invariant checks must not be set again
         # as an attribute of this class. Otherwise the attribute in the dictionary of this class would shadow,
